@@ -49,7 +49,19 @@ def gen_history(rng: Rng, tier: str, kmax=3, allow_fixture=True, allow_real_sour
     sessions = []
     for j in range(k):
         mode = "a" if (j > 0 or base is not None) else "w"
-        s = rw.gen_session(r, mode, knobs, used, nmax=4, maxlen=maxlen, password=password, heavy=heavy)
+        # sessions of one history need not agree on encryption: a plain session in a password history, or a password that is
+        # first given when appending to a plain archive (one password per history, so that one key reads everything)
+        rpw = rng.sub("pwmix%d" % j)
+        pw_j = password
+        # (an archive whose header is encrypted cannot be opened for appending without the password)
+        header_open = (sessions[-1]["header"] != "crypt") if sessions else base is None
+        if password is not None and header_open and rpw.chance(0.25):
+            pw_j = None
+        elif password is None and (j > 0 or base is not None) and rpw.chance(0.12):
+            password = pw_j = gen.gen_password(rpw)
+        s = rw.gen_session(r, mode, knobs, used, nmax=4, maxlen=maxlen, password=pw_j, heavy=heavy)
+        if pw_j is None and s.get("header") == "crypt":
+            s["header"] = "enc"
         if allow_real_sources and r.chance(0.35):
             extra = []
             if r.chance(0.5):
@@ -67,6 +79,9 @@ def gen_history(rng: Rng, tier: str, kmax=3, allow_fixture=True, allow_real_sour
             if op["op"] == "writeall":
                 used.append(op["name"])
         sessions.append(s)
+    if base is not None and sessions and rng.sub("emptyappend").chance(0.2):
+        # an append session that adds nothing: the header of another writer's archive is parsed and written back as it is
+        sessions[0]["ops"] = []
     read = {"block": gen.gen_knobs(r)["block"], "chunk": gen.gen_knobs(r)["chunk"]}
     if base is not None:
         # fixtures hold members of up to several MB: a 1-byte chunk limit would only make the run slow
